@@ -1009,10 +1009,12 @@ class Gridder(GeospatialGrid):
 
             segment_distances_repeated = np.repeat(segment_distances, count_subsegments)
 
+            # a zero-length segment (repeated point) still carries its integrated
+            # value: share it equally among its subsegments (normally just one)
             subsegment_distance_fractions = np.divide(
                 subsegment_distances,
                 segment_distances_repeated,
-                out=np.zeros_like(subsegment_distances),
+                out=1.0 / np.repeat(count_subsegments, count_subsegments),
                 where=segment_distances_repeated != 0,
             )
 
